@@ -415,7 +415,7 @@ func c03(env *Env, rep *Report) {
 		bindCore(rep, "C03")
 		bindModes(rep, "C03")
 		// configurations without token auth: the host policy must be wired for every scheme
-		for _, cfg := range []c05Config{{[]string{"ntlm"}, false}, {[]string{"kerberos"}, false}, {[]string{"local"}, true}} {
+		for _, cfg := range []c05Config{{Auth: []string{"ntlm"}}, {Auth: []string{"kerberos"}}, {Auth: []string{"local"}, TLS: true}} {
 			w := c05Start(cfg, false)
 			w.otherHost(func(kind, detail string) {
 				rep.violate("C03/binary:"+kind+"/"+cfg.String(), detail, map[string]any{"noreplay": true})
